@@ -38,8 +38,8 @@ class KeySim:
         return ('plans drawn from VERIF_SEED: one generated geometry (every convention) materialised as built-in-memory / '
                 'written-and-reopened / reopened twice / time-split open_mfdataset, then 4-12 ops: history ops that must never move a '
                 'key (copy x3, pickle, hold extra references to attribute values and dicts, drop them, gc, touch, load, repeated '
-                'key), non-geometry edits (add/drop/alter data variable, slice time, global attribute, data-variable attribute) '
-                'and single geometry edits (one value, dtype with same bytes, shape with same bytes, rename, attribute '
+                'key, memory layout, numpy print options, on-disk dtype spelled another way, the other byte order), non-geometry edits (add/drop/alter data variable, slice time, global attribute, data-variable attribute) '
+                'and single geometry edits (one value, dtype with same bytes, shape with same bytes, rename, attribute (scalar or array valued) '
                 'add/change/remove, convention class) ; a sample of plans recomputes keys of the on-disk datasets in fresh '
                 'interpreters under other PYTHONHASHSEEDs. History oracle: equal within (materialisation, geometry) class, '
                 'different across a single geometry edit. Non-trivial = >= 2 key events in one class after a history op or '
